@@ -394,6 +394,50 @@ fn execute_c15(case: &Value, _scratch: &str) -> Outcome {
             out.violate(Verdict::new("C15", "C15:clear-text", &[("kind", kf), ("where", "model")], format!("call {}: the model still holds a raw password {:?}", k, raw)));
         }
     }
+    // seam off: the code between the entropy hook and the operating system (buffering, pooling, caching of
+    // random bytes) is outside the simulated source; some runs end with a series of calls that draw from the
+    // real source, long enough to exhaust any small pool, and every salt must be a new one. The values are
+    // not repeatable and stay out of the record; the verdict is (a collision of 16 honest random bytes has
+    // probability 2^-128).
+    let os_tail = case["os_tail"].as_u64().unwrap_or(0) as usize;
+    if os_tail > 0 {
+        let mut b2 = umya::new_file();
+        let _ = b2.new_sheet("Second");
+        let mut salts: Vec<String> = Vec::new();
+        let r = guarded(|| {
+            for k in 0..os_tail {
+                match k % 4 {
+                    0 => {
+                        b2.get_sheet_mut(&0).unwrap().get_sheet_protection_mut().set_password(&password);
+                        salts.push(b2.get_sheet(&0).unwrap().get_sheet_protection().map(|p| p.get_salt_value().to_string()).unwrap_or_default());
+                    }
+                    1 => {
+                        b2.get_workbook_protection_mut().set_workbook_password(&password);
+                        salts.push(b2.get_workbook_protection().map(|p| p.get_workbook_salt_value().to_string()).unwrap_or_default());
+                    }
+                    2 => {
+                        b2.get_sheet_mut(&1).unwrap().get_sheet_protection_mut().set_password(&password);
+                        salts.push(b2.get_sheet(&1).unwrap().get_sheet_protection().map(|p| p.get_salt_value().to_string()).unwrap_or_default());
+                    }
+                    _ => {
+                        b2.get_workbook_protection_mut().set_revisions_password(&password);
+                        salts.push(b2.get_workbook_protection().map(|p| p.get_revisions_salt_value().to_string()).unwrap_or_default());
+                    }
+                }
+            }
+        });
+        if r.is_ok() {
+            out.step("os_entropy_calls", salts.len() as u64);
+            *out.faults_fired.entry("entropy:os".to_string()).or_insert(0) += salts.len() as u64;
+            let mut seen: std::collections::BTreeMap<&str, usize> = std::collections::BTreeMap::new();
+            for (k, s) in salts.iter().enumerate() {
+                if let Some(j) = seen.insert(s.as_str(), k) {
+                    out.violate(Verdict::new("C15", "C15:salt-not-fresh", &[("kind", "series"), ("entropy", "os")], format!("call {} of a series of {} protection calls on one thread reuses the salt of call {}", k, os_tail, j)));
+                    break;
+                }
+            }
+        }
+    }
     if mode == "prng" && stored.len() == 2 && stored[0].1 == stored[1].1 {
         out.violate(Verdict::new("C15", "C15:salt-not-fresh", &[("kind", kf)], "two calls with the same password use the same salt".to_string()));
     }
@@ -518,6 +562,11 @@ pub fn cases_c15(run_seed: u64, _tier: &str, _scratch: &str) -> Vec<Value> {
     }
     if sw.chance(1, 4) {
         c["lazy_touch"] = json!(sw.usize(3));
+    }
+    // one run in eight: a series of calls on the real entropy source (a stream of its own)
+    let mut ot = Rng::stream(run_seed, "os_tail");
+    if ot.chance(1, 8) {
+        c["os_tail"] = json!(18 + ot.usize(30));
     }
     vec![c]
 }
